@@ -46,9 +46,36 @@ Definition pcr_ext (b : bytes) : Z :=
   | _ => 0
   end.
 
-(* one 188-byte packet: sync byte, no transport error, not scrambled, payload
-   present; adaptation field length within the packet and consistent with its
-   flags (only random access / PCR are understood; the others must be clear). *)
+(* the adaptation field and what follows it; [rest] = the 184 bytes after the header.
+   Length within the packet and consistent with the flags (only random access /
+   PCR are understood; the other flags must be clear). *)
+Definition parse_af (pusi : bool) (pid cc : Z) (rest : bytes) : option tspkt :=
+  match rest with
+  | l :: af =>
+      if negb ((0 <=? l) && (l <=? 182)) then None else
+      let field := take l af in
+      let payload := drop l af in
+      match field with
+      | [] => Some {| k_pusi := pusi; k_pid := pid; k_cc := cc; k_rai := false; k_pcr := None;
+                      k_aflen := l; k_payload := payload |}
+      | fl :: body =>
+          (* discontinuity 128, random access 64, priority 32, PCR 16, OPCR 8, splice 4, private 2, extension 1 *)
+          if negb (fl mod 16 =? 0) then None else
+          let rai := (fl / 64) mod 2 =? 1 in
+          if (fl / 16) mod 2 =? 1 then
+            if l <? 7 then None else
+            let pb := firstn 6 body in
+            if negb (pcr_ext pb =? 0) then None else
+            Some {| k_pusi := pusi; k_pid := pid; k_cc := cc; k_rai := rai;
+                    k_pcr := Some (pcr_base pb); k_aflen := l; k_payload := payload |}
+          else
+            Some {| k_pusi := pusi; k_pid := pid; k_cc := cc; k_rai := rai; k_pcr := None;
+                    k_aflen := l; k_payload := payload |}
+      end
+  | [] => None
+  end.
+
+(* one 188-byte packet: sync byte, no transport error, not scrambled, payload present *)
 Definition parse_packet (p : bytes) : option tspkt :=
   if negb (Nat.eqb (length p) N188) then None else
   match p with
@@ -61,31 +88,7 @@ Definition parse_packet (p : bytes) : option tspkt :=
       if afc =? 1 then
         Some {| k_pusi := pusi; k_pid := pid; k_cc := cc; k_rai := false; k_pcr := None;
                 k_aflen := -1; k_payload := rest |}
-      else if afc =? 3 then
-        match rest with
-        | l :: af =>
-            if negb ((0 <=? l) && (l <=? 182)) then None else
-            let field := take l af in
-            let payload := drop l af in
-            match field with
-            | [] => Some {| k_pusi := pusi; k_pid := pid; k_cc := cc; k_rai := false; k_pcr := None;
-                            k_aflen := l; k_payload := payload |}
-            | fl :: body =>
-                (* discontinuity 128, random access 64, priority 32, PCR 16, OPCR 8, splice 4, private 2, extension 1 *)
-                if negb (fl mod 16 =? 0) then None else
-                let rai := (fl / 64) mod 2 =? 1 in
-                if (fl / 16) mod 2 =? 1 then
-                  if l <? 7 then None else
-                  let pb := firstn 6 body in
-                  if negb (pcr_ext pb =? 0) then None else
-                  Some {| k_pusi := pusi; k_pid := pid; k_cc := cc; k_rai := rai;
-                          k_pcr := Some (pcr_base pb); k_aflen := l; k_payload := payload |}
-                else
-                  Some {| k_pusi := pusi; k_pid := pid; k_cc := cc; k_rai := rai; k_pcr := None;
-                          k_aflen := l; k_payload := payload |}
-            end
-        | [] => None
-        end
+      else if afc =? 3 then parse_af pusi pid cc rest
       else None
   | _ => None
   end.
@@ -178,7 +181,9 @@ Definition is_video_sid (sid : Z) : bool := (0xe0 <=? sid) && (sid <=? 0xef).
 
 Definition parse_pes (d : bytes) : option pes :=
   match d with
-  | 0 :: 0 :: 1 :: sid :: l1 :: l2 :: f1 :: f2 :: hl :: rest =>
+  | c0 :: c1 :: c2 :: sid :: l1 :: l2 :: f1 :: f2 :: hl :: rest =>
+      (* packet_start_code_prefix 00 00 01 *)
+      if negb ((c0 =? 0) && (c1 =? 0) && (c2 =? 1)) then None else
       let plen := l1 * 256 + l2 in
       let total := zlen d - 6 in
       (* '10', not scrambled; only PTS/DTS flags understood *)
